@@ -31,7 +31,8 @@ CHECKS['C01'] = dict(
 CHECKS['C05'] = dict(
     text='Decides: exactly seven entries (key sets on every path, all outcomes), Fajr/Asr/Isha on the correct side of the very Dhuhr term '
          'with offsets in [0,12] h (interval domain), nothing flagged extreme and only conventional/interval values under policy None '
-         'in every skeleton world. Strict order between values of different solvers is numeric: not decided.',
+         'in every skeleton world. Strict order between values of different solvers is numeric: not decided.'
+         ' Includes the seam hygiene R1.2 and the clock-time conversion rules R11.4/R11.7 (wraps, bounded operands).',
     note=ASSUME + '; acos in [0, pi]',
     technique='key-set analysis + interval abstract domain on reconstructed terms + skeleton worlds')
 CHECKS['C06'] = dict(
@@ -76,26 +77,30 @@ CHECKS['C19'] = dict(
     text='Wiring of the binary decided on MIR: validated newtypes as argument field types, unmodified flow into Coordinates/Location, '
          'method/start/end wiring with documented defaults, parsing dominates the library call, file route through from_str::<ParamsConfig>, '
          'serialised/listed value is the library result of the one ParamsConfig, -p file is that same ParamsConfig. '
-         'JSON bytes, exit codes, terminal text are clap/serde/std semantics: not decided.',
+         'JSON bytes, exit codes, terminal text are clap/serde/std semantics: not decided.'
+         ' Includes the construction discipline of the validated types (R18.1-R18.5), a premise of the rejection clause.',
     note=ASSUME + '; clap derive uses the field type\'s FromStr (C18); serde derive symmetry',
     technique='field-type + value-flow (wiring) analysis by abstract interpretation of the bin crate\'s MIR')
 CHECKS['C02'] = dict(
     text='Decides: weather non-interference (directly and through policy None), one horizon constant in [-0.883,-0.783] used both in cos H0 '
          'and in the altitude correction, the weather factor of the refraction (increasing in pressure, decreasing in temperature, 1 at '
          'standard conditions), rise/set day fraction normalised into [0,1], shared guard, hemisphere parity of cos H0. The 0.05 degree '
-         'altitude agreement is numeric: not decided.',
+         'altitude agreement is numeric: not decided.'
+         ' Includes the Julian-Day century rule and the seam hygiene R1.2 (shared mechanisms that are necessary conditions here).',
     note=ASSUME + '; |lat| <= 60, |dec| < 24',
     technique='dependence, interval, monotone and parity abstract domains on the reconstructed rise/set terms')
 CHECKS['C03'] = dict(
     text='Decides on the reconstructed twilight terms: key flow (own angle only; Imsaak perturbs only the Fajr entry of a clone by the '
          'documented amount per branch and is the rerun\'s Fajr), orientation around the very Dhuhr term within 12 h, monotone in the own '
-         'angle, hemisphere parity, validity guard. Agreement with an ephemeris (0.03 / 0.5 deg) is numeric: not decided.',
+         'angle, hemisphere parity, validity guard. Agreement with an ephemeris (0.03 / 0.5 deg) is numeric: not decided.'
+         ' Includes the Julian-Day century rule and the seam hygiene R1.2.',
     note=ASSUME + '; |lat| <= 60, |dec| < 24, angles in [0,25]; libm monotone on monotone branches',
     technique='dependence, interval, monotone and parity abstract domains on reconstructed terms + abstract interpretation of the Imsaak builder')
 CHECKS['C04'] = dict(
     text='Decides: k is the numeric school enum (Shafi=1, Hanafi=2), only Asr depends on it, Asr = Dhuhr + t with t in [0,12] h, Asr weakly '
          'increasing in k (Hanafi not earlier than Shafi for every input), shadow-length term k + tan|lat-dec| >= k, hemisphere parity. '
-         'The 0.03 degree altitude and Asr < Maghrib are numeric: not decided.',
+         'The 0.03 degree altitude and Asr < Maghrib are numeric: not decided.'
+         ' Includes the Julian-Day century rule and the seam hygiene R1.2.',
     note=ASSUME + '; |lat| <= 60, |dec| < 24; libm monotone on monotone branches',
     technique='ADT discriminants + dependence, interval, monotone and parity abstract domains on the reconstructed Asr term')
 CHECKS['C10'] = dict(
@@ -110,7 +115,8 @@ CHECKS['C12'] = dict(
     text='Non-interference matrix parameters x times on the reconstructed terms (no-dispatch worlds) + pairing rules: interval definitions '
          'Isha = Maghrib + intervals[Isha]/60, Fajr = Shurooq - intervals[Fajr]/60 (polynomial identity), each entry converted/offset under '
          'its own key, Imsaak branches with documented amounts, absent weather = Weather::default(). Exact minute amounts beyond the /60 '
-         'factor are numeric.',
+         'factor are numeric.'
+         ' Includes the clock-time conversion rules R11.4/R11.7 and the policy scope / invalid-gate rules R8.1/R8.2.',
     note=ASSUME + '; dispatch worlds excluded (documented coupling of Fajr/Isha: C08-C10)',
     technique='dependence (non-interference) analysis + polynomial identity on reconstructed terms')
 CHECKS['C09'] = dict(
